@@ -76,6 +76,7 @@ class Adapter:
     avail = "immediate"     # immediate | ghost_delay | whitebox
     lifo = False
     edge = False            # driven through an edge object (Buffer/Fleet/ConveyorBelt)
+    settle_urgent = False   # run process-initialisation (URGENT) events after every call
 
     def __init__(self, **kw):
         self.kw = kw
@@ -117,6 +118,12 @@ class Adapter:
 
     def new_delay(self, h):
         return None
+
+    def new_gap(self, h):
+        return h.ctx.real("gap", 0)
+
+    def final_gap(self, h):
+        return h.ctx.real("gap", 0)
 
 
 class A_RPRS(Adapter):
@@ -264,9 +271,17 @@ class A_Fleet(Adapter):
 
     def build(self, h):
         from factorysimpy.base.fleet_store import FleetStore
-        h.fleet_delay = h.ctx.real("fdelay", 0.25) if self.delay is None else self.delay
+        h.fleet_delay = h.ctx.real("fdelay", 1) if self.delay is None else self.delay
         h.fleet_transit = h.ctx.real("ftransit", 0) if self.transit is None else self.transit
         return FleetStore(h.env, capacity=h.cap, delay=h.fleet_delay, transit_delay=h.fleet_transit)
+
+
+    # the fleet's periodic timer makes every advance fork once per period: keep gaps short
+    def new_gap(self, h):
+        return h.ctx.real("gap", 0, 1.5)
+
+    def final_gap(self, h):
+        return h.fleet_delay + 2 * h.fleet_transit
 
 
 class A_FleetEdge(A_Fleet):
@@ -275,7 +290,7 @@ class A_FleetEdge(A_Fleet):
 
     def build(self, h):
         from factorysimpy.edges.fleet import Fleet
-        h.fleet_delay = h.ctx.real("fdelay", 0.25) if self.delay is None else self.delay
+        h.fleet_delay = h.ctx.real("fdelay", 1) if self.delay is None else self.delay
         h.fleet_transit = h.ctx.real("ftransit", 0) if self.transit is None else self.transit
         e = Fleet(h.env, "F", capacity=h.cap, delay=h.fleet_delay, transit_delay=h.fleet_transit)
         e.src_node = object()
@@ -298,6 +313,7 @@ class A_Belt(Adapter):
     timed = True
     avail = "whitebox"
     edge = True
+    settle_urgent = True    # belt items carry per-item processes that must be initialised before the next call
 
     def __init__(self, kind="slotted", accumulating=True, cap=2, **kw):
         super().__init__(**kw)
@@ -384,6 +400,7 @@ class Harness:
         self.n_cancel_granted_put = 0
         self.mid_arrival = False
         self.reported = set()
+        self.in_kstep = False
         self.store = ad.build(self)
         self.drain()
 
@@ -433,12 +450,18 @@ class Harness:
 
     def pick_proc(self):
         if self.two_procs:
-            return self.P[self.ctx.choice(2, "proc")]
+            # the two caller processes take turns
+            self.turn = getattr(self, "turn", 0) + 1
+            return self.P[self.turn % 2]
         return self.P[0]
 
     # -- observation after every call / kernel step ---------------------------
     def observe(self, quiescent=False):
         ctx = self.ctx
+        if self.ad.settle_urgent and not self.in_kstep:
+            q = self.env._queue
+            while q and q[0][1] == 0 and q[0][0] <= self.env.now:
+                self.kstep()
         # availability ranks by white-box observation of ready_items
         if self.ad.avail == "whitebox" or self.ad.avail == "ghost_delay":
             ready = self.ad.ready_objs(self)
@@ -676,6 +699,7 @@ class Harness:
 
     # -- kernel ---------------------------------------------------------------
     def kstep(self):
+        self.in_kstep = True
         try:
             self.env.step()
         except symx.PathStop:
@@ -687,6 +711,8 @@ class Harness:
             if "exceeds capacity" in msg:
                 self.fail("C01:capacity-exceeded-when-item-became-available", {"msg": msg[:120]})
             self.fail(f"CRASH:kernel-step-raised-{type(e).__name__}", {"msg": msg[:160]})
+        finally:
+            self.in_kstep = False
         self.observe()
 
     def drain(self):
@@ -702,7 +728,7 @@ class Harness:
     def advance(self, g=None):
         """let simulated time pass by a symbolic amount g >= 0, then finish that instant"""
         if g is None:
-            g = self.ctx.real("gap", 0)
+            g = self.ad.new_gap(self)
         self.drain()
         ev = self.env.timeout(g)
         n = 0
@@ -752,7 +778,7 @@ class Harness:
 # scenario families
 
 
-def _prefix_retrieval(h, N, with_transit=True, with_space=False):
+def _prefix_retrieval(h, N, with_transit=True, with_space=False, R2=2, USE=True, RMAX=9, S=2):
     """Build a state with n retrievable items, <=1 in-transit item, retrieval reservations of which a
     subset was cancelled again, optionally outstanding space reservations.  Public API only."""
     ctx = h.ctx
@@ -793,7 +819,7 @@ def _prefix_retrieval(h, N, with_transit=True, with_space=False):
             ctx.assume(t.state == "granted")
             h.do_put(t)
     # retrieval reservations
-    r = ctx.choice(n_ready + 2, "n_reserve_get")
+    r = ctx.choice(min(n_ready + 2, RMAX + 1), "n_reserve_get")
     toks = []
     for i in range(r):
         theta = None
@@ -805,17 +831,17 @@ def _prefix_retrieval(h, N, with_transit=True, with_space=False):
         if t.state in ("granted", "pending") and ctx.choice(2, "cancel?"):
             h.do_cancel(t)
     # a second round: new retrieval reservations, and some granted ones are used
-    r2 = ctx.choice(3, "n_reserve_get_2")
+    r2 = ctx.choice(R2 + 1, "n_reserve_get_2")
     for i in range(r2):
         theta = None
         if ad.filt and ctx.choice(2, "filter?"):
             theta = ctx.real("theta")
         h.do_reserve_get(theta=theta)
     for t in list(h.toks):
-        if t.kind == "get" and t.state == "granted" and ctx.choice(2, "use?"):
+        if USE and t.kind == "get" and t.state == "granted" and ctx.choice(2, "use?"):
             h.do_get(t)
     if with_space:
-        s = ctx.choice(3, "n_reserve_put")
+        s = ctx.choice(S + 1, "n_reserve_put")
         for i in range(s):
             h.do_reserve_put()
     return h
@@ -865,7 +891,7 @@ def _prefix_priority(h, N, side):
 
 
 def scenario(store, family, N=3, K=2, oracles=("C01", "C02", "C04", "C05", "C06"), cap_max=None, cap_fixed=None,
-             sym_prio=False):
+             sym_prio=False, R2=2, USE=True, TR=True, twin=False, RMAX=9, S=2):
     """returns fn(ctx) exploring prefix(family, N) followed by K free calls on the given store."""
     def fn(ctx):
         ad = adapter(store)
@@ -875,9 +901,9 @@ def scenario(store, family, N=3, K=2, oracles=("C01", "C02", "C04", "C05", "C06"
         h = Harness(ctx, ad, oracles, cap_max=cm, cap_fixed=cap_fixed,
                     sym_prio=sym_prio or family.startswith("prio"))
         if family == "retrieval":
-            _prefix_retrieval(h, N)
+            _prefix_retrieval(h, N, with_transit=TR, R2=R2, USE=USE, RMAX=RMAX, S=S)
         elif family == "both":
-            _prefix_retrieval(h, N, with_space=True)
+            _prefix_retrieval(h, N, with_transit=TR, with_space=True, R2=R2, USE=USE, RMAX=RMAX, S=S)
         elif family == "space":
             _prefix_space(h, N)
         elif family == "prio_get":
@@ -892,6 +918,207 @@ def scenario(store, family, N=3, K=2, oracles=("C01", "C02", "C04", "C05", "C06"
         for _ in range(K):
             h.free_step()
         if ad.timed:
-            h.advance()
+            h.advance(ad.final_gap(h))
+        else:
+            h.drain()
         ctx.hit("complete")
+        if twin:
+            ctx.fail("TWIN:reached-end")
+    return fn
+
+
+# ---------------------------------------------------------------------------
+# C07: one ill-formed call on a constructed state
+
+
+def _snapshot(h):
+    s = h.ad.raw(h)
+    snap = {}
+    for name in ("items", "ready_items", "reserve_put_queue", "reservations_put", "reserve_get_queue",
+                 "reservations_get", "reserved_events", "reserved_items"):
+        if hasattr(s, name):
+            snap[name] = [id(x[0]) if isinstance(x, tuple) else id(x) for x in getattr(s, name)]
+    snap["triggered"] = [t.ev.triggered for t in h.toks]
+    snap["scheduled"] = len(h.env._queue)
+    return snap
+
+
+ILL_KINDS = ["put-unknown-token", "get-unknown-token", "put-other-process-token", "get-other-process-token",
+             "put-used-token", "get-used-token", "put-cancelled-token", "get-cancelled-token",
+             "put-pending-token", "get-pending-token", "put-with-get-token", "get-with-put-token",
+             "cancel-put-unknown-token", "cancel-get-unknown-token", "cancel-put-used-token", "cancel-get-used-token",
+             "cancel-put-cancelled-token", "cancel-get-cancelled-token"]
+
+
+def _ill_formed_call(h):
+    ctx = h.ctx
+    kind = ILL_KINDS[ctx.choice(len(ILL_KINDS), "ill-kind")]
+    op, what = kind.split("-", 1)
+    side = "put" if (kind.startswith("put") or kind.startswith("cancel-put")) else "get"
+
+    def pick(pred):
+        c = [t for t in h.toks if pred(t)]
+        ctx.assume(bool(c))
+        return c[ctx.choice(len(c), "which-token")]
+
+    caller = None
+    if "unknown-token" in kind:
+        ev = h.env.event()
+        ev.requesting_process = h.P[0]
+        ev.resourcename = h.ad.raw(h)
+        caller = h.P[0]
+    elif "other-process-token" in kind:
+        t = pick(lambda t: t.kind == side and t.state == "granted")
+        ev = t.ev
+        caller = h.P[1] if t.proc is h.P[0] else h.P[0]
+    elif "used-token" in kind:
+        t = pick(lambda t: t.kind == side and t.state == "used")
+        ev, caller = t.ev, t.proc
+    elif "cancelled-token" in kind:
+        t = pick(lambda t: t.kind == side and t.state == "cancelled")
+        ev, caller = t.ev, t.proc
+    elif "pending-token" in kind:
+        t = pick(lambda t: t.kind == side and t.state == "pending")
+        ev, caller = t.ev, t.proc
+    elif kind == "put-with-get-token":
+        t = pick(lambda t: t.kind == "get" and t.state == "granted")
+        ev, caller = t.ev, t.proc
+    elif kind == "get-with-put-token":
+        t = pick(lambda t: t.kind == "put" and t.state == "granted")
+        ev, caller = t.ev, t.proc
+    before = _snapshot(h)
+    h.as_proc(caller)
+    raised = None
+    try:
+        if op == "cancel":
+            (h.ad.cancel_put if side == "put" else h.ad.cancel_get)(h, ev)
+        elif op == "put":
+            fake = Tok("put", ev, 0, -1, caller)
+            h.ad.put(h, fake, It("bogus", 0), h.ad.new_delay(h))
+        else:
+            fake = Tok("get", ev, 0, -1, caller)
+            h.ad.get(h, fake)
+    except symx.PathStop:
+        raise
+    except Exception as e:
+        raised = e
+    ctx.hit("C07:ill-formed:" + kind)
+    if raised is None:
+        h.fail(f"C07:{kind}-was-accepted")
+    if not isinstance(raised, RuntimeError):
+        h.fail(f"C07:{kind}-raised-{type(raised).__name__}-instead-of-RuntimeError", {"msg": str(raised)[:100]})
+    after = _snapshot(h)
+    if after != before:
+        diff = [k for k in before if before[k] != after.get(k)]
+        h.fail(f"C07:{kind}-changed-the-store", {"changed": diff})
+    # ... and the rejected call must not have broken anything: every granted reservation still works
+    for t in list(h.toks):
+        if t.state == "granted":
+            if t.kind == "put":
+                try:
+                    h.as_proc(t.proc)
+                    h.ad.put(h, t, It("late", 0), h.ad.new_delay(h))
+                    t.state = "used"
+                    if h.ad.timed:
+                        h.drain()
+                except symx.PathStop:
+                    raise
+                except Exception as e:
+                    h.fail(f"C07:valid-put-refused-after-rejected-{kind}", {"msg": str(e)[:100]})
+            else:
+                try:
+                    h.as_proc(t.proc)
+                    h.ad.get(h, t)
+                    t.state = "used"
+                    if h.ad.timed:
+                        h.drain()
+                except symx.PathStop:
+                    raise
+                except Exception as e:
+                    h.fail(f"C07:valid-get-refused-after-rejected-{kind}", {"msg": str(e)[:100]})
+
+
+def scenario_c07(store, N=2, K=1, cap_max=None, twin=False, T=2):
+    def fn(ctx):
+        ad = adapter(store)
+        h = Harness(ctx, ad, ("C07",), cap_max=cap_max, two_procs=True)
+        # a populated state: items, used / cancelled / granted / pending tokens of two processes on both sides
+        n = ctx.choice(N + 1, "n_items")
+        for i in range(n):
+            t = h.do_reserve_put(proc=h.pick_proc())
+            ctx.assume(t.state == "granted")
+            h.do_put(t, key=0 if ad.filt else None)
+        if ad.timed:
+            h.advance(ad.final_gap(h) if isinstance(ad, (A_Fleet, A_Belt)) else None)
+        for i in range(ctx.choice(T + 1, "n_reserve_get")):
+            h.do_reserve_get(proc=h.pick_proc())
+        for i in range(ctx.choice(T + 1, "n_reserve_put")):
+            h.do_reserve_put(proc=h.pick_proc())
+        for t in list(h.toks):
+            if t.state in ("pending", "granted") and ctx.choice(2, "cancel?"):
+                h.do_cancel(t)
+        for t in list(h.toks):
+            if t.state == "granted" and t.kind == "get" and ctx.choice(2, "use?"):
+                h.do_get(t)
+        for _ in range(K):
+            if ctx.choice(2, "free-step?"):
+                h.free_step(allow_advance=False)
+        ctx.hit("prefix-done")
+        _ill_formed_call(h)
+        ctx.hit("complete")
+        if twin:
+            ctx.fail("TWIN:reached-end")
+    return fn
+
+
+# ---------------------------------------------------------------------------
+# C11: can_put / can_get / occupancy / delay exactness on Buffer and Fleet edges
+
+
+def _probe(h, quiescent):
+    ctx = h.ctx
+    e = h.store
+    ghost_occ = h.occ()
+    occ = e.occupancy() if hasattr(e, "occupancy") and h.ad.name.startswith("Buffer") else e.get_occupancy()
+    ctx.hit("C11:probe")
+    if occ != ghost_occ:
+        h.soft("C11:occupancy-wrong", {"reported": occ, "actual": ghost_occ})
+    # can_put <=> a reservation issued now is granted at once
+    cp = e.can_put()
+    h.as_proc(h.P[0])
+    ev = h.ad.reserve_put(h, 0)
+    granted = ev.triggered
+    h.ad.cancel_put(h, ev)
+    if bool(cp) != bool(granted):
+        h.soft("C11:can_put-disagrees-with-reservation", {"can_put": bool(cp), "granted": bool(granted)})
+    cg = e.can_get()
+    ev = h.ad.reserve_get(h, 0, None)
+    granted = ev.triggered
+    h.ad.cancel_get(h, ev)
+    if bool(cg) != bool(granted):
+        h.soft("C11:can_get-disagrees-with-reservation", {"can_get": bool(cg), "granted": bool(granted)})
+    if quiescent and h.ad.avail == "ghost_delay" and not h.pending("get"):
+        # an item put at t with delay d is retrievable from t+d on (and not before)
+        ready = [g for g in h.items if g.inside and g.t_put + g.delay <= h.env.now]
+        free = len(ready) - len(h.granted_unused("get"))
+        if (free > 0) != bool(granted):
+            h.soft("C11:item-not-retrievable-exactly-from-t+d", {"free_by_delay": free, "granted": bool(granted)})
+    h.observe()
+
+
+def scenario_c11(store, N=2, K=2, cap_max=None, twin=False, R2=1, RMAX=9, S=2):
+    def fn(ctx):
+        ad = adapter(store)
+        h = Harness(ctx, ad, ("C11",), cap_max=cap_max)
+        _prefix_retrieval(h, N, with_transit=True, with_space=True, R2=R2, USE=False, RMAX=RMAX, S=S)
+        ctx.hit("prefix-done")
+        _probe(h, False)
+        for _ in range(K):
+            h.free_step()
+            _probe(h, False)
+        h.advance(ad.final_gap(h))
+        _probe(h, True)
+        ctx.hit("complete")
+        if twin:
+            ctx.fail("TWIN:reached-end")
     return fn
